@@ -53,7 +53,7 @@ CHECKS = {
          "Held on what was executed: 64 (quick) / 160 (thorough) ahtree operation sequences (append bursts with 0-300 byte payloads, ResetSize + re-append, Sync, Close/Open, cache 1 slot..default, tiny files) with Size/Root/RootAt/DataAt and all inclusion and consistency proofs for 1<=i<=j<=n compared exhaustively up to n=64 (200 thorough); htree for every width to 130 (1100) and every leaf; ~4 M (quick) verifier decisions on tuples altered by wrong index/size, dropped/extra/duplicated/flipped/reordered terms, swapped roots, other leaf.",
          "SHA-256; the strict RFC 9162 verification algorithm defines 'a correct proof for exactly the claimed positions and sizes'; a tuple valid for another tree shape is accepted by the reference too and not held against the implementation.", "DESIGN.md 2/C08"),
  "C03": ("fault_enumeration", "runtime monitoring + fault enumeration over recorded traces: os.File-level journal of real synced workloads, crash images at journal indexes under three loss models, recovery obligations checked on each image in a fresh process",
-         "Every crash image is a state the real process + POSIX file system could have left at some journal index of a recorded execution (3 traces quick / 24 thorough; quick samples ~ 500 points per trace around fsyncs, creations, removals, acks plus PRNG points, thorough takes every journal index) under M0 process kill, M1 nothing un-fsynced, M2 per-file prefix with torn last write; on each the store must reopen, hold every acknowledged tx byte-identical, expose a dense chained frontier made only of txs it had issued, prove consistency from an acknowledged state, have an index that agrees with the log, and accept a new commit.",
+         "Every crash image is a state the real process + POSIX file system could have left at some journal index of a recorded execution (3 traces quick / 16 thorough; quick samples ~ 500 points per trace around fsyncs, creations, removals, acks plus PRNG points, thorough takes every journal index) under M0 process kill, M1 nothing un-fsynced, M2 per-file prefix with torn last write; on each the store must reopen, hold every acknowledged tx byte-identical, expose a dense chained frontier made only of txs it had issued, prove consistency from an acknowledged state, have an index that agrees with the log, and accept a new commit.",
          "Crash points and workloads are those of the recorded traces; arbitrary subsets of un-fsynced writes are not generated (the property quantifies over per-file prefixes); directory entries are durable at the following directory fsync; a step that hits a time limit is re-run alone with limits x10 before it can count.", "DESIGN.md 2/C03"),
  "C02": ("exploration", "runtime monitoring: ledger of acknowledged commits re-read (live, cold copy, after reopen) + online monitor on issued/committed hooks + Merkle reference for the chain, under concurrent committers with hook-point schedule perturbation",
          "Held on the executions produced: 8 (quick) / 64 (thorough) store configurations, each with 3-4 rounds of 4-12 concurrent committers (12 operation kinds incl. refused, conflicting and cancelled txs), maintenance (flush, compaction, sync, truncation), external-commit-allowance backlogs with discarding, and close/reopen cycles; every acknowledged tx is re-read and compared, the whole committed range is re-chained against an independent RFC 6962 root, every sampled state is checked retrospectively.",
